@@ -188,7 +188,8 @@ Variable seed : Z -> gstate.
 Record interp := {
   decide : nat -> list value -> bool;          (* Branch site -> history -> take the first branch *)
   stop : nat -> nat -> list value -> bool;     (* For site -> iteration index -> history -> break *)
-  request : nat -> list value -> req }.        (* draw site -> history -> (distribution, shape, parameters) *)
+  request : nat -> list value -> req;          (* draw site -> history -> (distribution, shape, parameters) *)
+  as_seed : nat -> list value -> Z }.          (* RandomState(<expr>) site -> history -> the int the expression evaluates to *)
 
 (* everything except the global generator: objects created or passed in ([heap]), the values drawn
    (most recent first), a step counter, the log of generators drawn from, an error flag *)
@@ -320,7 +321,7 @@ End Sem.
 
 Arguments heap {gstate value}. Arguments hist {gstate value}. Arguments ticks {gstate value}.
 Arguments srcs {gstate value}. Arguments failed {gstate value}.
-Arguments decide {value req}. Arguments stop {value req}. Arguments request {value req}.
+Arguments decide {value req}. Arguments stop {value req}. Arguments request {value req}. Arguments as_seed {value req}.
 Arguments HNone {gstate}. Arguments HInt {gstate}. Arguments HInst {gstate}. Arguments HGlobObj {gstate}. Arguments HBad {gstate}.
 Arguments o_hist {gstate value}. Arguments o_failed {gstate value}. Arguments o_inst {gstate value}. Arguments o_srcs {gstate value}.
 
@@ -341,7 +342,11 @@ Inductive pskel :=
 | PCheck (x : nat) (e : pexp)             (* x = check_random_state(e) *)
 | PDraw (x t : nat)                       (* x.<sampling method>(...) *)
 | PDrawNp (t : nat)                       (* np.random.<function>(...) *)
-| PCall (e : pexp) (body : pskel).        (* callee(..., random_state=e): body runs in a new scope whose variable 0 is e *)
+| PCall (e : pexp) (body : pskel)         (* callee(..., random_state=e): body runs in a new scope whose variable 0 is e *)
+| PFail                                   (* raise: the call fails (a flag, like every exception in this model; the transcription puts the code
+                                             that follows a raise / return on the other branch, so nothing is executed after it) *)
+| PSeedFrom (x t : nat).                  (* x = RandomState(<expr>): a CHILD generator seeded with an int computed from the values drawn so
+                                             far and the call's arguments ([as_seed] of the interpretation), e.g. RandomState(rng.randint(2**31)) *)
 
 Fixpoint pseqs (l : list pskel) : pskel := match l with [] => PSkip | x :: r => PSeq x (pseqs r) end.
 
@@ -371,7 +376,7 @@ Definition aeval (e : pexp) (A : aenv) : wcur :=
 
 (* [pgf sk A = Some A']: started with variables abstracted by A, no draw of sk reaches the global generator, and A'
    abstracts the variables afterwards.  Joins are pointwise; a loop is analysed at its entry state if that is
-   stable, otherwise at the top state. *)
+   stable, otherwise at the entry state joined with one iteration if that is stable, otherwise at the top state. *)
 Fixpoint pgf (sk : pskel) (A : aenv) : option aenv :=
   match sk with
   | PSkip => Some A
@@ -380,9 +385,16 @@ Fixpoint pgf (sk : pskel) (A : aenv) : option aenv :=
   | PFor _ _ body =>
       match pgf body A with
       | Some A1 => if ale A1 A then Some A
-                   else match pgf body atop with Some _ => Some atop | None => None end
+                   else let B := ajoin A A1 in          (* second attempt: the entry state joined with one iteration *)
+                        match pgf body B with
+                        | Some B1 => if ale B1 B then Some B
+                                     else match pgf body atop with Some _ => Some atop | None => None end
+                        | None => None
+                        end
       | None => None
       end
+  | PFail => Some A
+  | PSeedFrom x _ => Some (aset x WSafe A)
   | PAssign x e => Some (aset x (aeval e A) A)
   | PCheck x e => Some (aset x (aeval e A) A)
   | PDraw x _ => match alook x A with WSafe => Some A | WUnsafe => None end
@@ -395,7 +407,7 @@ Definition pglobal_free (sk : pskel) : bool := match pgf sk ([WSafe], WSafe) wit
 
 Fixpoint pdraw_free (sk : pskel) : bool :=
   match sk with
-  | PSkip | PAssign _ _ | PCheck _ _ => true
+  | PSkip | PAssign _ _ | PCheck _ _ | PFail | PSeedFrom _ _ => true
   | PSeq a b | PBranch _ a b => pdraw_free a && pdraw_free b
   | PFor _ _ body | PCall _ body => pdraw_free body
   | PDraw _ _ | PDrawNp _ => false
@@ -421,7 +433,7 @@ Fixpoint embed (sk : skel) : pskel :=
    check_random_state, on every path, possibly through callees that receive it unchanged *)
 Fixpoint passigns0 (sk : pskel) : bool :=
   match sk with
-  | PAssign 0 _ | PCheck 0 _ => true
+  | PAssign 0 _ | PCheck 0 _ | PSeedFrom 0 _ => true
   | PSeq a b | PBranch _ a b => passigns0 a || passigns0 b
   | PFor _ _ body => passigns0 body
   | _ => false
@@ -432,6 +444,7 @@ Fixpoint pmust_check (sk : pskel) : bool :=
   | PBranch _ a b => pmust_check a && pmust_check b
   | PCheck _ (PVar 0) => true
   | PCall (PVar 0) body => pmust_check body
+  | PFail => true                 (* the call fails on this path whatever the seed is *)
   | _ => false
   end.
 
@@ -441,6 +454,10 @@ Variable draw : req -> gstate -> value * gstate.
 Variable seed : Z -> gstate.
 Notation lw := (lworld gstate value).
 Notation I_ := (interp value req).
+
+(* x = RandomState(<expr>): a fresh object seeded with the int the expression evaluates to (ValueError when out of range) *)
+Definition seed_from (I : I_) (t : nat) (w : lw) : option gen * lw :=
+  check_random_state gstate value seed (VInt (as_seed I t (hist w))) (tickL gstate value w).
 
 Fixpoint ploopL (f : list rsval -> lw -> option (list rsval * lw)) (stp : nat -> list value -> bool)
          (k i : nat) (env : list rsval) (w : lw) : option (list rsval * lw) :=
@@ -467,6 +484,8 @@ Fixpoint prun_local (I : I_) (sk : pskel) (env : list rsval) (w : lw) : option (
                  end
   | PDrawNp _ => None
   | PCall e body => match prun_local I body [peval e env] w with Some (_, w1) => Some (env, w1) | None => None end
+  | PFail => Some (env, failL gstate value w)
+  | PSeedFrom x t => let (c1, w1) := seed_from I t w in Some (setv VBad x (of_gen c1) env, w1)
   end.
 
 Variable genv : nat -> gstate -> gstate.
@@ -496,11 +515,15 @@ Fixpoint prun (I : I_) (sk : pskel) (env : list rsval) (w : lw) (g : gstate) : l
                  end
   | PDrawNp t => let (w1, g1) := draw_glob gstate value req draw I t (tickL gstate value w) (genv (ticks w) g) in (env, w1, g1)
   | PCall e body => let '(_, w1, g1) := prun I body [peval e env] w g in (env, w1, g1)
+  | PFail => (env, failL gstate value w, g)
+  | PSeedFrom x t => let (c1, w1) := seed_from I t w in (setv VBad x (of_gen c1) env, w1, genv (ticks w) g)
   end.
 
 Definition pcall (I : I_) (sk : pskel) (a : rsarg gstate) (g : gstate) : outcome gstate value * gstate :=
   let '(_, w, g') := prun I sk [param0 gstate a] (w0 gstate value a) g in (outcome_of gstate value a w, g').
 End PSem.
+
+Arguments seed_from : simpl never.
 
 (* ------------------------------------------------------------------ histories of one process *)
 Section Hist.
@@ -668,6 +691,12 @@ Definition sk_tt_cross (o : opts) : skel :=
    (Seq (rep (order o - 1) (rep (o_aux o) (Seq (rep (order o) (Draw 3)) (For 2 (o_nrep o) (rep (order o) (Draw 3))))))
         (Seq (rep (order o) (Draw 1)) (For 1 (o_iters o) Skip))).
 
+(* tensorly/decomposition/_tt.py, _tr_svd.py: tensor_train, tensor_train_matrix, tensor_ring have an `svd` option but NO random_state
+   parameter: one svd_interface call per mode without random_state.  With the default (truncated) SVD nothing is drawn; with
+   svd='randomized_svd' every SVD draws from the GLOBAL generator and the caller cannot seed it (outside the first clause of
+   the property -- no random_state is accepted -- and, with that option, not a "function without random choices" either) *)
+Definition sk_tt_svd (o : opts) : skel := rep (order o) (Call ANone (sk_svd_interface (o_svd o) false 0)).
+
 (* tensorly/regression *)
 Definition sk_cp_regressor (o : opts) : skel := Seq Check (Seq (rep (order o - 1 + o_aux o) (Draw 5)) (For 1 (o_iters o) Skip)).
 Definition sk_tucker_regressor (o : opts) : skel := Seq Check (Seq (Draw 5) (Seq (rep (order o - 1) (Draw 5)) (For 1 (o_iters o) Skip))).
@@ -689,7 +718,7 @@ Inductive ep :=
 | E_initialize_cp | E_parafac | E_nn_parafac | E_nn_parafac_hals | E_constrained_parafac | E_initialize_constrained | E_randomised_parafac
 | E_sample_khatri_rao
 | E_initialize_tucker | E_partial_tucker | E_tucker | E_nn_tucker | E_nn_tucker_hals
-| E_parafac2 | E_parafac2_init | E_compute_projections | E_tr_als | E_tr_als_sampled | E_tt_cross
+| E_parafac2 | E_parafac2_init | E_compute_projections | E_tr_als | E_tr_als_sampled | E_tt_cross | E_tt_svd
 | E_cp_regressor | E_tucker_regressor | E_cp_plsr
 | E_estimator (e : ep)            (* class wrapper: fit_transform / fit passes self.random_state *)
 | E_rng_free                      (* no random_state argument and no draw: tensor algebra, SVD-based TT/TR, ... *)
@@ -724,6 +753,7 @@ Fixpoint skeleton (e : ep) (o : opts) : skel :=
   | E_tr_als => sk_tr_als o
   | E_tr_als_sampled => sk_tr_als_sampled o
   | E_tt_cross => sk_tt_cross o
+  | E_tt_svd => sk_tt_svd o
   | E_cp_regressor => sk_cp_regressor o
   | E_tucker_regressor => sk_tucker_regressor o
   | E_cp_plsr => sk_cp_plsr o
@@ -738,7 +768,10 @@ Fixpoint skeleton (e : ep) (o : opts) : skel :=
 Definition toy_draw (_ : nat) (g : Z) : Z * Z := (g, (g + 1)%Z).
 Definition toy_seed (s : Z) : Z := (1000 * s)%Z.
 Definition toy_interp : interp Z nat :=
-  {| decide := fun _ _ => true; stop := fun _ _ _ => false; request := fun t _ => t |}.
+  {| decide := fun _ _ => true; stop := fun _ _ _ => false; request := fun t _ => t; as_seed := fun t h => (Z.of_nat t + 7 * Z.of_nat (length h))%Z |}.
+(* the opposite interpretation: the SECOND alternative of every data-dependent branch, every loop left at once *)
+Definition toy_interp_alt : interp Z nat :=
+  {| decide := fun _ _ => false; stop := fun _ _ _ => true; request := fun t _ => t; as_seed := fun t h => (Z.of_nat t + 7 * Z.of_nat (length h))%Z |}.
 Definition toy_env : nat -> Z -> Z := fun _ g => g.
 
 (* source projection of a call: (outcome ok?, global drawn, fresh object drawn, passed instance drawn, global state changed) *)
@@ -750,10 +783,16 @@ Definition project (a : rsarg Z) (o : outcome Z Z) (g g' : Z) : projection :=
    existsb (fun x => match x with GObj h => Nat.leb base h | GGlobal => false end) (o_srcs o),
    existsb (fun x => match x with GObj h => Nat.ltb h base | GGlobal => false end) (o_srcs o),
    negb (Z.eqb g g')).
-Definition model_projection (e : ep) (o : opts) (a : rsarg Z) : projection :=
+(* componentwise: [a] completes whenever [b] does, and draws / moves nothing that [b] does not *)
+Definition proj_le (a b : projection) : bool :=
+  let '(ok1, g1, f1, p1, s1) := a in let '(ok2, g2, f2, p2, s2) := b in
+  implb ok2 ok1 && implb g1 g2 && implb f1 f2 && implb p1 p2 && implb s1 s2.
+Definition model_projection_with (I : interp Z nat) (e : ep) (o : opts) (a : rsarg Z) : projection :=
   let g := 77%Z in
-  let (out, g') := call Z Z nat toy_draw toy_seed toy_env toy_interp (skeleton e o) a g in
+  let (out, g') := call Z Z nat toy_draw toy_seed toy_env I (skeleton e o) a g in
   project a out g g'.
+Definition model_projection := model_projection_with toy_interp.
+Definition model_projection_alt := model_projection_with toy_interp_alt.
 
 (* a configuration used by the non-vacuity examples of Props/C16.v: randomized-SVD init with mask, rank above every mode size *)
 Definition ex_opts : opts :=
